@@ -11,6 +11,10 @@ package main
 //     bm  the first backend map (no backend of this mode needs ACLs: never fires here, see world mode)
 //     ad<i>+<j>..  admin socket error on these Sends of the update   ab<i>+..  bad answer instead
 //     rs  reload command fails on the master socket      rr  reload accepted, worker fails
+//     mn mo mw  the three steps INSIDE the rotated write of haproxy.cfg (first op `O<k>` = the instance runs with
+//         --max-old-config-files k, InstanceOptions.MaxOldConfigFiles): the rotation rename, the removal of the
+//         oldest rotated copy, the write itself; see armRot.  With rotation on every observation ends with
+//         `|k<number of rotated copies on disk>` (Spec: at most k after a successful update).
 //   file faults: an existing target is made immutable for the duration of the call (chattr +i: EPERM on
 //   write, still readable), a target that does not exist yet is replaced by a DIRECTORY (EISDIR); the
 //   harness runs as root, chmod would not stop the write.
@@ -113,14 +117,18 @@ type c12inst struct {
 	runResp string
 	reloads int
 	owed    bool // the last HAProxyUpdate returned before it was past writeConfig (instance.rewriteOwed)
+	rot     int  // InstanceOptions.MaxOldConfigFiles (--max-old-config-files): haproxy.cfg and the shard files are rotated
+	fired   []string // statistics: the faults inside the rotated write that were armed at their own step
 }
 
-func newC12inst(queue bool, n int, names []int) *c12inst {
+func newC12inst(queue bool, n int, names []int) *c12inst { return newC12instRot(queue, n, names, 0) }
+
+func newC12instRot(queue bool, n int, names []int, rot int) *c12inst {
 	dir, err := os.MkdirTemp("", "c12inst")
 	if err != nil {
 		panic(err)
 	}
-	e := &c12inst{n: n, dir: dir, cfgDir: filepath.Join(dir, "cfg"), mapsDir: filepath.Join(dir, "maps"), names: names, idx: map[string]int{}}
+	e := &c12inst{n: n, rot: rot, dir: dir, cfgDir: filepath.Join(dir, "cfg"), mapsDir: filepath.Join(dir, "maps"), names: names, idx: map[string]int{}}
 	for i, cand := range names {
 		e.idx[c05id(cand)] = i
 	}
@@ -142,6 +150,8 @@ func newC12inst(queue bool, n int, names []int) *c12inst {
 		MasterSocket:   filepath.Join(dir, "master.sock"),
 		AdminSocket:    filepath.Join(dir, "admin.sock"),
 		Metrics:        c05metrics{},
+
+		MaxOldConfigFiles: rot,
 	}
 	if queue {
 		e.q = &c12queue{}
@@ -288,6 +298,119 @@ func c12block(path string) func() {
 	}
 }
 
+// ---- rotated outputs (rot > 0: template.writeToDisk renames the current file to <output>.<mtime>, removes the
+// oldest rotated copies, then writes)
+
+const c12rotStamp = "20060102-150405.000"
+
+// c12rotated: the rotated copies in the configuration directory (<name>.cfg.<stamp>)
+func (e *c12inst) rotated() []string {
+	files, _ := filepath.Glob(filepath.Join(e.cfgDir, "*.cfg.*"))
+	sort.Strings(files)
+	return files
+}
+
+// c12blockRot is c12block for an output that is rotated: a directory in place of a file that does not exist
+// yet would simply be rotated away (Stat sees it, Rename moves it), so such a target becomes a DANGLING SYMLINK
+// (Stat: does not exist, the rotation is skipped; WriteFile: ENOENT).  An existing file is made immutable as
+// before: the rotation rename fails with EPERM.
+func (e *c12inst) blockRot(path string) func() {
+	if e.rot == 0 {
+		return c12block(path)
+	}
+	if st, err := os.Lstat(path); err == nil && st.Mode().IsRegular() {
+		return c12block(path)
+	}
+	_ = os.Remove(path)
+	if err := os.Symlink(filepath.Join(e.dir, "no-such-dir", "x"), path); err != nil {
+		panic(err)
+	}
+	return func() { _ = os.Remove(path) }
+}
+
+// armRot arms one of the three fault points INSIDE the rotated write of haproxy.cfg.  When the step cannot
+// fail in the present state (no rotation, no file yet, fewer copies than allowed) the fault falls back to the
+// plain `mc` block, so that `mn` / `mo` / `mw` always mean "this update fails while writing haproxy.cfg".
+//   mn  the rotation rename fails: its target <output>.<mtime> is a non-empty directory
+//   mo  the removal of the oldest rotated copy fails: every rotated copy is immutable.  The rename has
+//       happened by then and haproxy.cfg does not exist; the harness puts the rotated content back under the
+//       output name when the fault ends (the fault cycle model has no "no such file" state for an update that
+//       failed; Model/C12Rot.lean has it and proves the retry for it)
+//   mw  the write itself fails: haproxy.cfg is held aside and a dangling symlink takes its place (the rotation
+//       is skipped, WriteFile fails); the file is put back when the fault ends
+func (e *c12inst) armRot(kind string) func() {
+	main := filepath.Join(e.cfgDir, "haproxy.cfg")
+	st, err := os.Lstat(main)
+	exists := err == nil && st.Mode().IsRegular()
+	switch {
+	case kind == "mn" && e.rot > 0 && exists:
+		e.fired = append(e.fired, "inst_rotfault_fired_mn")
+		to := main + "." + st.ModTime().Format(c12rotStamp)
+		old, oerr := os.ReadFile(to) // a copy rotated within the same millisecond
+		_ = os.Remove(to)
+		if err := os.MkdirAll(filepath.Join(to, "x"), 0755); err != nil {
+			panic(err)
+		}
+		return func() {
+			_ = os.RemoveAll(to)
+			if oerr == nil {
+				_ = os.WriteFile(to, old, 0644)
+			}
+		}
+	case kind == "mo" && e.rot > 0 && exists && len(e.rotated()) >= e.rot:
+		e.fired = append(e.fired, "inst_rotfault_fired_mo")
+		to := main + "." + st.ModTime().Format(c12rotStamp)
+		var locked []string
+		for _, f := range e.rotated() {
+			if c12immutable(f, true) == nil {
+				locked = append(locked, f)
+			}
+		}
+		return func() {
+			for _, f := range locked {
+				_ = c12immutable(f, false)
+			}
+			if _, err := os.Lstat(main); err != nil {
+				if data, err := os.ReadFile(to); err == nil {
+					_ = os.WriteFile(main, data, 0644)
+				}
+			}
+		}
+	case kind == "mw" && exists:
+		e.fired = append(e.fired, "inst_rotfault_fired_mw")
+		held := filepath.Join(e.dir, "haproxy.cfg.held")
+		if err := os.Rename(main, held); err != nil {
+			panic(err)
+		}
+		if err := os.Symlink(filepath.Join(e.dir, "no-such-dir", "x"), main); err != nil {
+			panic(err)
+		}
+		// an update that does not write haproxy.cfg at all (nothing to write, only a reload owed) must find it
+		// readable: the block is lifted when the simulated HAProxy is about to read the files
+		lifted := false
+		lift := func() {
+			if !lifted {
+				lifted = true
+				_ = os.Remove(main)
+				_ = os.Rename(held, main)
+			}
+		}
+		prev := e.sim.PreLoad
+		e.sim.PreLoad = func(dir string) error {
+			lift()
+			if prev != nil {
+				return prev(dir)
+			}
+			return nil
+		}
+		return func() {
+			lift()
+			e.sim.PreLoad = prev
+		}
+	}
+	return e.blockRot(main)
+}
+
 // c12immutable sets or clears the immutable inode flag (chattr +i / -i)
 func c12immutable(path string, on bool) error {
 	const (
@@ -332,7 +455,9 @@ func (e *c12inst) arm(f c12fault) (restore func()) {
 	case "cl":
 		undo = append(undo, c12block(filepath.Join(e.cfgDir, fmt.Sprintf("crtlist_tcp_%d.list", c12tcpPort))))
 	case "mc":
-		undo = append(undo, c12block(filepath.Join(e.cfgDir, "haproxy.cfg")))
+		undo = append(undo, e.blockRot(filepath.Join(e.cfgDir, "haproxy.cfg")))
+	case "mn", "mo", "mw":
+		undo = append(undo, e.armRot(f.kind))
 	case "ef":
 		undo = append(undo, c12block(filepath.Join(e.cfgDir, "errorfiles/503.http")))
 	case "lr":
@@ -349,7 +474,7 @@ func (e *c12inst) arm(f c12fault) (restore func()) {
 			}
 		}
 		if fires {
-			undo = append(undo, c12block(filepath.Join(e.cfgDir, fmt.Sprintf("haproxy5-backend%03d.cfg", f.k))))
+			undo = append(undo, e.blockRot(filepath.Join(e.cfgDir, fmt.Sprintf("haproxy5-backend%03d.cfg", f.k))))
 		}
 	case "ad":
 		for _, i := range f.idxs {
@@ -718,8 +843,14 @@ func (e *c12inst) obs(err error) string {
 	if rr == "" {
 		rr = "-.-.-"
 	}
-	return strings.Join([]string{ev, e.items(), e.hosts(), strconv.Itoa(e.tcpWant()), strings.Join(fs, ","), e.diskMaps(), e.diskTcp(), e.running(), rm, rt, pend,
+	res := strings.Join([]string{ev, e.items(), e.hosts(), strconv.Itoa(e.tcpWant()), strings.Join(fs, ","), e.diskMaps(), e.diskTcp(), e.running(), rm, rt, pend,
 		e.globResp(), e.diskResp(false), rr}, "|")
+	if e.rot > 0 {
+		// rotated copies kept in the configuration directory (they are no *.cfg: neither HAProxy nor the
+		// comparison above reads them); the Spec bounds their number after every successful update
+		res += fmt.Sprintf("|k%d", len(e.rotated()))
+	}
+	return res
 }
 
 func (e *c12inst) update(f c12fault) string {
@@ -820,9 +951,13 @@ func c12instRun(queue bool, n int, names, shardOf []int, ops []string) c12res {
 		qs = "1"
 	}
 	args := fmt.Sprintf("inst %s %d %s %s", qs, n, strings.Join(shards, "."), strings.Join(ops, ","))
+	var fired []string
 	out := func() (res string) {
 		var e *c12inst
 		defer func() {
+			if e != nil {
+				fired = e.fired
+			}
 			if r := recover(); r != nil {
 				res = "PANIC"
 				fmt.Fprintf(os.Stderr, "C12 panic on %s: %v\n", args, r)
@@ -836,11 +971,17 @@ func c12instRun(queue bool, n int, names, shardOf []int, ops []string) c12res {
 				e.close()
 			}
 		}()
-		e = newC12inst(queue, n, names)
+		rot := 0
+		if len(ops) > 0 && ops[0][0] == 'O' {
+			rot, _ = strconv.Atoi(ops[0][1:])
+		}
+		e = newC12instRot(queue, n, names, rot)
 		var obs []string
-		for _, op := range ops {
+		for i, op := range ops {
 			cfg := e.inst.Config()
 			switch {
+			case op[0] == 'O' && i == 0:
+				// O<k>: the instance runs with --max-old-config-files=k (first op only)
 			case op == "F":
 				cfg.Clear()
 				e.inst.Config().Global().MatchOrder = hatypes.DefaultMatchOrder
@@ -905,12 +1046,25 @@ func c12instRun(queue bool, n int, names, shardOf []int, ops []string) c12res {
 			nf++
 		}
 	}
-	return c12res{args, out, []string{"mode_inst", fmt.Sprintf("inst_faults_%d", min(nf, 4)), fmt.Sprintf("inst_shards_%d", n), "inst_queue_" + qs}}
+	rotStat := "inst_rotate_0"
+	if len(ops) > 0 && ops[0][0] == 'O' {
+		rotStat = "inst_rotate_" + ops[0][1:]
+	}
+	stats := []string{"mode_inst", fmt.Sprintf("inst_faults_%d", min(nf, 4)), fmt.Sprintf("inst_shards_%d", n), "inst_queue_" + qs, rotStat}
+	for _, op := range ops {
+		for _, k := range []string{"mn", "mo", "mw"} {
+			if op == "u:"+k {
+				stats = append(stats, "inst_rotfault_"+k)
+			}
+		}
+	}
+	stats = append(stats, fired...)
+	return c12res{args, out, stats}
 }
 
 // ---- inst generators
 
-var c12faults = []string{"tm", "fm", "bm", "cl", "ef", "lr", "mc", "sh0", "sh1", "sh2", "rs", "rr", "ad0", "ab0", "ad0+1+2+3+4+5+6+7+8+9", "ad1"}
+var c12faults = []string{"tm", "fm", "bm", "cl", "ef", "lr", "mc", "sh0", "sh1", "sh2", "rs", "rr", "ad0", "ab0", "ad0+1+2+3+4+5+6+7+8+9", "ad1", "mn", "mo", "mw"}
 
 // c12world0 is the harness' picture of what the controller should hold (the "cluster")
 type c12state struct {
@@ -1074,6 +1228,10 @@ func c12instRandom(j *c12jobs, r *gen.Rng, count int) {
 		queue := r.Chance(1, 3)
 		st := &c12state{p: p, back: map[int][2]int{}, host: map[int]int{}}
 		var ops []string
+		// --max-old-config-files: haproxy.cfg and the shard files are rotated before they are written
+		if rot := gen.Pick(r, []int{0, 0, 1, 3}); rot > 0 {
+			ops = append(ops, fmt.Sprintf("O%d", rot))
+		}
 		nb := r.Range(2, 6)
 		for b := 0; b < nb; b++ {
 			before := len(ops)
@@ -1230,6 +1388,88 @@ func c12instExhaustive(j *c12jobs, all bool) {
 	}
 }
 
+// c12instRotated: the instance rotates haproxy.cfg and the shard files (--max-old-config-files 1 / 3).  Enough
+// successful rewrites first that the allowed number of copies exists, then every kind of change x every fault
+// point inside the rotated write (the plain block `mc`, the rotation rename `mn`, the removal of the oldest
+// copy `mo`, the write itself `mw`, a shard file, and an earlier file), injected once or twice, followed by
+// the empty retry / by the next event (a change that only the maps see, a change of another backend) and then
+// an empty update
+func c12instRotated(j *c12jobs, all bool) {
+	changes := [][]string{
+		{"r0", "a0.8.0"},                     // backend conf
+		{"a2.4.0"},                           // backend added
+		{"r1"},                               // backend deleted
+		{"R0", "H0.2"},                       // host
+		{"T2"},                               // tcp
+		{"r0", "a0.8.0", "R0", "H0.2", "T2"}, // all
+		{},                                   // none
+		{"F", "a0.8.0", "a1.4.0", "H0.2", "T2", "G2.3"}, // full resync with changes
+	}
+	faults := []string{"mc", "mn", "mo", "mw", "sh0", "fm"}
+	for _, queue := range []bool{false, true} {
+		for _, n := range []int{0, 3} {
+			for _, rot := range []int{1, 3} {
+				for ci, ch := range changes {
+					if !all && (ci == 1 || ci == 2 || ci == 4 || ci == 5) {
+						continue // quick: backend conf, host, none, full resync
+					}
+					for _, f := range faults {
+						if f == "sh0" && n == 0 {
+							continue
+						}
+						for _, twice := range []bool{false, true} {
+							if twice && !all && f != "mo" {
+								continue
+							}
+							u := func(ops []string, fault string) []string {
+								if fault == "" {
+									ops = append(ops, "u")
+								} else {
+									ops = append(ops, "u:"+fault)
+								}
+								return ops
+							}
+							uq := func(ops []string) []string {
+								ops = append(ops, "u")
+								if queue {
+									ops = append(ops, "q")
+								}
+								return ops
+							}
+							ops := []string{fmt.Sprintf("O%d", rot), "a0.4.0", "a1.4.0", "H0.1", "T1", "G1.0"}
+							ops = uq(ops)
+							// rot more rewrites of haproxy.cfg: the copies exist, the next rotation has one to remove
+							for i := 0; i < rot; i++ {
+								ops = append(ops, "r3", fmt.Sprintf("a3.%d.0", 4*(i+1)))
+								ops = uq(ops)
+							}
+							ops = append(ops, ch...)
+							ops = u(ops, f)
+							if twice {
+								ops = u(ops, f)
+							}
+							base := append([]string(nil), ops...)
+							// the scheduled retry, then an unrelated change
+							ops = uq(ops)
+							ops = append(ops, "r3", "a3.40.0")
+							ops = uq(ops)
+							c12instCase(j, queue, n, c05patterns[n][:4], ops)
+							if ci >= 1 && !all {
+								continue
+							}
+							// the retry is the next event: a host change (maps only: haproxy.cfg keeps its text), then empty
+							ops = append(append([]string(nil), base...), "H1.1")
+							ops = uq(ops)
+							ops = uq(ops)
+							c12instCase(j, queue, n, c05patterns[n][:4], ops)
+						}
+					}
+				}
+			}
+		}
+	}
+}
+
 func c12instCorpus(j *c12jobs) {
 	for _, l := range []string{
 		// --- the histories of the theorems of Props/C12 (same order)
@@ -1272,6 +1512,15 @@ func c12instCorpus(j *c12jobs) {
 		"1 0 0.0 H0.1,G1.0,u,q,F,H0.1,G2.1,u:fm,u,q",
 		// an errorfile that is not configured any more stays on disk, unreferenced; configured again later
 		"0 0 0.0 H0.1,G1.3,u,F,H0.1,G1.0,u:lr,u,F,H0.1,G1.4,u:ef,u",
+		// --- rotated outputs (O<k> = --max-old-config-files k; Props/C12Rot): the rotation rename / the removal of
+		// the oldest copy / the write itself fails, the retry is empty or the next event
+		"0 0 0.0 O1,a0.4.0,u,r0,a0.8.0,u:mn,u",
+		"0 0 0.0 O1,a0.4.0,u,r0,a0.8.0,u,r0,a0.4.0,u:mo,u",
+		"0 0 0.0 O3,a0.4.0,u,r0,a0.8.0,u:mw,u",
+		"0 0 0.0 O1,a0.4.0,H0.1,u,a1.4.0,u:mn,R0,H0.2,u,u",
+		"0 0 0.0 O1,a0.4.0,H0.1,u:mc,u",
+		"1 3 2.0 O1,a0.4.0,a1.4.0,u,q,r0,a0.8.0,u:mc,u,q",
+		"0 3 2.0 O3,a0.4.0,a1.4.0,u,r0,a0.8.0,r1,a1.8.0,u:sh0,u",
 		// --- more
 		"0 0 0.0 a0.4.0,H0.1,u:mc,u",
 		"0 0 0.0 a0.4.0,H0.1,T1,u,T2,u:tm,u,T3,u:cl,u,T4,u:mc,u",
@@ -2203,6 +2452,7 @@ func runC12(c *ctx) {
 	}
 	c12instCorpus(j)
 	c12instExhaustive(j, c.thorough())
+	c12instRotated(j, c.thorough())
 	n := 600
 	if c.thorough() {
 		n = 20000
